@@ -6597,7 +6597,7 @@ impl Machine {
         if !self.machine_st.ball.stub.is_empty() {
             self.machine_st
                 .ball_stack
-                .push(mem::replace(&mut self.machine_st.ball, Ball::new()));
+                .push(mem::replace(&mut self.machine_st.ball, Ball::with_reserve()));
         } else {
             self.machine_st.fail = true;
         }
